@@ -289,12 +289,15 @@ func renderTable(m map[string]map[string]bool) string {
 	return strings.Join(parts, "; ")
 }
 
-func ruleElemAgreement(r *Run, p *Prog) {
-	enc := p.NamedType("internal/json", "Encoder")
-	if !r.Anchor(enc != nil, "ELEM", "json.Encoder") {
+func ruleElemAgreement(r *Run, p *Prog) { ruleElemAgreementIn(r, p, "internal/json", 15) }
+
+// ruleElemAgreementIn: scalar/slice sibling agreement of the Encoder of package rel.
+func ruleElemAgreementIn(r *Run, p *Prog, rel string, floor int) {
+	enc := p.NamedType(rel, "Encoder")
+	if !r.Anchor(enc != nil, "ELEM", rel+".Encoder") {
 		return
 	}
-	methods := p.Methods("internal/json", "Encoder", true)
+	methods := p.Methods(rel, "Encoder", true)
 	byName := map[string]*ssa.Function{}
 	for _, m := range methods {
 		byName[m.Name()] = m
@@ -388,8 +391,8 @@ func ruleElemAgreement(r *Run, p *Prog) {
 		r.Ob("ELEM", FnName(s)+"/element", p.Pos(s.Pos()), ok, true, tern(ok, "elements rendered as in "+sib.Name()+": "+a,
 			fmt.Sprintf("%s renders an element as {%s} but %s renders the same value as {%s}: the slice variant and the scalar entry point encode the same (type, value) differently", s.Name(), a, sib.Name(), b)))
 	}
-	if n < 15 {
-		r.Fail("ELEM", "floor", "-", fmt.Sprintf("only %d scalar/slice appender pairs found in internal/json", n))
+	if n < floor {
+		r.Fail("ELEM", "floor", "-", fmt.Sprintf("only %d scalar/slice appender pairs found in %s", n, rel))
 	}
 }
 
